@@ -49,8 +49,11 @@ class VirtualFile(object):
             pass
 
         try:
+            # Bytes that do not contain a single cassette file are not a cassette image
             cassette_file = CassetteFile(buffer=self.source_file.get_buffer())
-            return cassette_file.list_files(), VirtualFileType.CASSETTE
+            coco_files = cassette_file.list_files()
+            if coco_files or not self.source_file.get_buffer():
+                return coco_files, VirtualFileType.CASSETTE
         except VirtualFileValidationError as error:
             pass
 
